@@ -73,7 +73,7 @@ class Explorer:
                 if collect:
                     collect(m, p, ia, oa)
             except PathAbort as e:
-                p.status = "abort"
+                p.status = "infeasible" if e.reason.startswith("infeasible path") else "abort"
                 p.reason = e.reason
             except MemError as e:
                 p.status = "memerror"
@@ -96,7 +96,11 @@ class Explorer:
             p.machine_objs = {k: (v.kind, v.name, v.size) for k, v in m.objs.items()}
             self.total_steps += m.steps
             self.refuted += m.refuted
-            paths.append(p)
+            p.guard_writes = m.guard_writes
+            if p.status == "infeasible":
+                self.refuted += 1
+            else:
+                paths.append(p)
             work.extend(m.pending)
         return paths
 
